@@ -23,6 +23,9 @@ import (
 	"encoding/json"
 	"flag"
 	"fmt"
+	"hash/adler32"
+	"hash/crc32"
+	"hash/fnv"
 	"math/rand/v2"
 	"os"
 	"reflect"
@@ -275,9 +278,11 @@ type tyEntry struct {
 	label string // reflect.TypeFor[T]().String(): tells interface types apart (their %T is "<nil>")
 	iface bool
 	dflt  outcome
+	zero  outcome // the second default GetOrDefault is called with (op GetOrDefault2): T's zero value
 	get   func(cfg *gconfig.Config, key string) outcome
 	must  func(cfg *gconfig.Config, key string) outcome
 	ordef func(cfg *gconfig.Config, key string) outcome
+	ordz  func(cfg *gconfig.Config, key string) outcome
 }
 
 var types []tyEntry
@@ -301,6 +306,10 @@ func reg[T any](dflt T) {
 	}
 	e.ordef = func(cfg *gconfig.Config, key string) outcome {
 		return guarded(false, func() outcome { return render(any(gconfig.GetOrDefault[T](cfg, key, dflt))) })
+	}
+	e.zero = render(any(zero))
+	e.ordz = func(cfg *gconfig.Config, key string) outcome {
+		return guarded(false, func() outcome { return render(any(gconfig.GetOrDefault[T](cfg, key, zero))) })
 	}
 	types = append(types, e)
 }
@@ -487,6 +496,9 @@ func buildDoc(r *rand.Rand) (text []byte, keys []string, pairs []suffixPair) {
 			doc[k] = []any{r.IntN(9), r.IntN(9)}
 		}
 	}
+	for i, k := range collidingKeys {
+		doc[k] = 7000 + i
+	}
 	text, err := yaml.Marshal(doc)
 	if err != nil {
 		panic(err)
@@ -522,6 +534,78 @@ func wideDoc(g, n int) ([]byte, []string) {
 	return text, keys
 }
 
+// otherValues returns the document with every integer and string scalar changed (same keys).
+func otherValues(text []byte) []byte {
+	var doc any
+	if err := yaml.Unmarshal(text, &doc); err != nil {
+		panic(err)
+	}
+	var walk func(v any) any
+	walk = func(v any) any {
+		switch x := v.(type) {
+		case int:
+			return x + 1000
+		case string:
+			if _, err := time.ParseDuration(x); err == nil {
+				return x
+			}
+			return x + "~b"
+		case []any:
+			for i := range x {
+				x[i] = walk(x[i])
+			}
+		case map[string]any:
+			for k := range x {
+				x[k] = walk(x[k])
+			}
+		case map[any]any:
+			for k := range x {
+				x[k] = walk(x[k])
+			}
+		}
+		return v
+	}
+	out, err := yaml.Marshal(walk(doc))
+	if err != nil {
+		panic(err)
+	}
+	return out
+}
+
+// collidingKeys: pairs of distinct keys with the same 32-bit hash under FNV-1a, FNV-1, CRC-32 (IEEE)
+// and Adler-32, found by a birthday search over short random keys (a fixed PRNG: the same pairs in
+// every run), followed by two very long keys.  A memo that identifies entries by such a hash of the
+// key (seed C10-43) confuses the two keys of a pair.
+var collidingKeys = findCollisions()
+
+func findCollisions() []string {
+	r := rand.New(rand.NewPCG(7, 11))
+	hashes := []func(string) uint32{
+		func(s string) uint32 { h := fnv.New32a(); h.Write([]byte(s)); return h.Sum32() },
+		func(s string) uint32 { h := fnv.New32(); h.Write([]byte(s)); return h.Sum32() },
+		func(s string) uint32 { return crc32.ChecksumIEEE([]byte(s)) },
+		func(s string) uint32 { return adler32.Checksum([]byte(s)) },
+	}
+	const letters = "abcdefghijklmnopqrstuvwxyz0123456789"
+	var out []string
+	for _, h := range hashes {
+		seen := map[uint32]string{}
+		for {
+			b := make([]byte, 7)
+			for i := range b {
+				b[i] = letters[r.IntN(len(letters))]
+			}
+			k := "h" + string(b)
+			if o, ok := seen[h(k)]; ok && o != k {
+				out = append(out, o, k)
+				break
+			}
+			seen[h(k)] = k
+		}
+	}
+	return append(out, "long"+strings.Repeat("k", 300), "long"+strings.Repeat("k", 299)+"j")
+}
+
 func load(text []byte) *gconfig.Config {
 	cfg, err := gconfig.NewBuilder().FromBytes(text)
 	if err != nil {
@@ -551,6 +635,8 @@ func (q request) run(cfg *gconfig.Config) outcome {
 		return t.must(cfg, q.Key)
 	case "GetOrDefault":
 		return t.ordef(cfg, q.Key)
+	case "GetOrDefault2": // the same entry point with another default (T's zero value)
+		return t.ordz(cfg, q.Key)
 	}
 	return t.get(cfg, q.Key)
 }
@@ -647,6 +733,8 @@ func emit(out *gal.Out, kind string, text []byte, ops []request, obs []outcome, 
 			return "MustGet " + gcx.GStr(q.Key) + " " + gal.Nat(q.Ty)
 		case "GetOrDefault":
 			return "GetOrDefault " + gcx.GStr(q.Key) + " " + gal.Nat(q.Ty) + " " + gVal(types[q.Ty].dflt)
+		case "GetOrDefault2":
+			return "GetOrDefault " + gcx.GStr(q.Key) + " " + gal.Nat(q.Ty) + " " + gVal(types[q.Ty].zero)
 		}
 		return "Get " + gcx.GStr(q.Key) + " " + gal.Nat(q.Ty)
 	}))
@@ -655,7 +743,7 @@ func emit(out *gal.Out, kind string, text []byte, ops []request, obs []outcome, 
 	out.Case(sb.String(), c)
 }
 
-var opNames = []string{"Get", "Get", "Get", "MustGet", "GetOrDefault"}
+var opNames = []string{"Get", "Get", "Get", "MustGet", "GetOrDefault", "GetOrDefault2"}
 
 // hardKeys: keys whose values reach the decoding paths that panic for the `hard` types (maps with
 // the fields s / x, scalars and lists for the interface types) and a few that do not (null, missing).
@@ -677,6 +765,11 @@ func randomRequest(r *rand.Rand, keys []string, pairs []suffixPair, recent []req
 			return []request{q, {opNames[r.IntN(len(opNames))], keys[r.IntN(len(keys))], r.IntN(len(types))}}
 		}
 		return []request{q}
+	case x >= 85 && x < 88:
+		// the two keys of a pair that collides under a 32-bit hash, same type, one after the other
+		i := 2 * r.IntN(len(collidingKeys)/2)
+		t := []int{tyByName("int"), tyByName("string"), tyByName("<nil>"), tyByName("uint8")}[r.IntN(4)]
+		return []request{{op, collidingKeys[i], t}, {opNames[r.IntN(len(opNames))], collidingKeys[i+1], t}}
 	case x >= 88:
 		// a request for a path THROUGH a map with non-string keys and requests for the map itself
 		// (typed by its key type, as map[string]T, as any), in either order, sometimes repeated
@@ -792,8 +885,54 @@ func main() {
 		}
 		emit(out, kind, text, ops[:len(obs)], obs, 0)
 	}
+	// two Configs loaded by ONE Builder from two documents with the same keys and other values; the
+	// requests alternate between them.  Each Config must answer like a Config of its own document
+	// loaded by a Builder of its own (what `emit` compares with): nothing — a memo, a parsed
+	// document — may be shared between Configs through the Builder.
+	textB := otherValues(text)
+	two := func(kind string, ops []request) {
+		b := gconfig.NewBuilder()
+		cfgA, errA := b.FromBytes(text)
+		cfgB, errB := b.FromBytes(textB)
+		if errA != nil || errB != nil {
+			panic(fmt.Sprintf("c10: cannot load the documents: %v %v", errA, errB))
+		}
+		var opsA, opsB []request
+		var obsA, obsB []outcome
+		for i, q := range ops {
+			cfg := cfgA
+			if i%2 == 1 {
+				cfg = cfgB
+			}
+			o := watch(func() outcome { return q.run(cfg) })
+			if i%2 == 1 {
+				opsB, obsB = append(opsB, q), append(obsB, o)
+			} else {
+				opsA, obsA = append(opsA, q), append(obsA, o)
+			}
+			if isHang(o) {
+				break
+			}
+		}
+		emit(out, kind, text, opsA, obsA, 0)
+		if len(opsB) > 0 {
+			emit(out, kind, textB, opsB, obsB, 0)
+		}
+	}
 	switch *mode {
 	case "corpus":
+		// one Builder, two Configs: the same requests on both, alternating
+		two("corpus", []request{{"Get", "a", tyByName("int")}, {"Get", "a", tyByName("int")}, {"Get", "s", tyByName("string")}, {"Get", "s", tyByName("string")},
+			{"MustGet", "m", tyByName("map[string]int")}, {"MustGet", "m", tyByName("map[string]int")}, {"Get", "l", tyByName("[]int")}, {"Get", "l", tyByName("[]int")}})
+		// GetOrDefault with two different defaults for the same key and type, where the fallback is used
+		seq("corpus", []request{{"GetOrDefault", "nope", tyByName("uint8")}, {"GetOrDefault2", "nope", tyByName("uint8")}, {"GetOrDefault", "nope", tyByName("uint8")},
+			{"GetOrDefault2", "big", tyByName("uint8")}, {"GetOrDefault", "big", tyByName("uint8")}, {"Get", "big", tyByName("uint8")},
+			{"GetOrDefault", "s", tyByName("int")}, {"GetOrDefault2", "s", tyByName("int")}, {"GetOrDefault2", "a", tyByName("int")}, {"GetOrDefault", "a", tyByName("int")}})
+		// keys that collide under the usual 32-bit hashes, and very long keys
+		for i := 0; i+1 < len(collidingKeys); i += 2 {
+			seq("corpus", []request{{"Get", collidingKeys[i], tyByName("int")}, {"Get", collidingKeys[i+1], tyByName("int")},
+				{"Get", collidingKeys[i+1], tyByName("string")}, {"Get", collidingKeys[i], tyByName("string")}})
+		}
 		u8, i8, anyT := tyByName("uint8"), tyByName("int8"), tyByName("<nil>")
 		// the DESIGN §5 witness, both orders, through every entry point
 		seq("corpus", []request{{"Get", "a", u8}, {"Get", "au", i8}})
@@ -975,6 +1114,10 @@ func main() {
 		}
 	default:
 		for c := 0; c < *n && !tooManyHangs(); c++ {
+			if c%5 == 4 {
+				two("random", randomHistory(r, keys, pairs, 1+r.IntN(*hlen)))
+				continue
+			}
 			seq("random", randomHistory(r, keys, pairs, 1+r.IntN(*hlen)))
 		}
 	}
